@@ -41,7 +41,7 @@ def gen_schedule(rng, nworkers, nevents, mode, flavour):
     holder = {}                  # mutex -> tid (file-order simulation; sched mode only)
     lines = [f'M {mode}', f'N {nworkers}', f'S {rng.randrange(1 << 30)}']
     out = lines.append
-    w = dict(new=6, newroot=1, del_=3, xdel=1, gc=2, churn=2, tset=3, tget=3, tmem=1, trem=2, x=4, lookup=3, pub=2, perr=1,
+    w = dict(new=6, newroot=1, newx=2, del_=3, xdel=1, gc=2, churn=2, tset=3, tget=3, tmem=1, trem=2, x=4, lookup=3, pub=2, perr=1,
              work=0, lock=4, trylock=3, winc=3, unguarded=1, rd=1, spawn=3, join=2, end=1, disabled=1)
     if flavour == 'locks': w.update(lock=12, trylock=8, winc=8, new=2, x=1, unguarded=3)
     if flavour == 'gc': w.update(new=12, del_=6, gc=6, churn=5, tset=6, trem=4, lock=1, trylock=1, winc=1)
@@ -88,7 +88,7 @@ def gen_schedule(rng, nworkers, nevents, mode, flavour):
             if T == 0 or t.held or t.try_open or t.pending_ld is not None or t.nops < 6: continue
             if rng.random() < 0.5: continue
             out(f'{T} end'); t.phase = 'done'; n += 1
-        elif op in ('new', 'newroot'):
+        elif op in ('new', 'newroot', 'newx'):
             free_k = [k for k in range(0, 40) if k not in t.used] or [k for k in range(40, MAXK) if k not in t.used]
             if not free_k: continue
             k = rng.choice(free_k[:8]); t.used.add(k); t.alive.add(k); t.stack.add(k)
@@ -232,7 +232,9 @@ class C13(Spec):
                   'at every point of every UB-free schedule at most one thread is inside sections of one Mutex (lock/unlock, trylock, with) and it is the holder; '
                   'C13_counter_exact - non-atomic increments made inside sections are never lost; C13_join / C13_join_publishes - every step of t precedes the return of '
                   'join t and every later read yields t\'s final published value (= its solo value); C13_teardown_own / C13_teardown_step / C13_foreign_del - a collector (del, '
-                  'collection, the teardown in Thread_Init_Run) only ever finalises objects its own thread allocated. C13_source_shape_as_modelled and '
+                  'collection, the teardown in Thread_Init_Run) only ever finalises objects its own thread allocated; C13_teardown_survives_destructor_exceptions - with the epilogue '
+                  'order of the current source (collector before exception record, read from the source on every run) no del, collection or thread teardown ever runs a destructor '
+                  'without the thread\'s exception record (C13_teardown_old_order_refuted: the order before commit 7de4bbc crashes on a 4-event schedule). C13_source_shape_as_modelled and '
                   'C13_error_translation_current_source re-check on every run that the 27 source fragments the model mirrors (Thread_Current, GC_Current, Exception_Current, '
                   'Thread_Init_Run, GC_New/Del, alloc_by/del_by, start_in/stop_in/with, Mutex_*, Thread_Join, the cache macro) and the pthread error translation are the text '
                   'the model was written against. The model is tied to /repo by executing scripted interleavings on real Cello threads (baton) comparing every event outcome, '
@@ -242,7 +244,7 @@ class C13(Spec):
                   'and memory-model effects, the pthread implementation, signals, the conservative stack scan (a collection is modelled with an arbitrary marked set). '
                   'Trusted: Lean kernel; harness/h_thr.c + lean/Driver/Thr.lean comparison (testing); pthread and libc.')
     rule = ('op files are schedules (tid, op): (a) scripted interleavings (mode sched) of 1-8 workers + main generated by simulating the lock/join machine, including '
-            'deliberately disabled events (blocked lock/join, unlock by a non-holder, ops of unborn/finished threads, reused serials, ill-formed lines), executed on real '
+            'objects whose destructors do try/throw/catch, deliberately disabled events (blocked lock/join, unlock by a non-holder, ops of unborn/finished threads, reused serials, ill-formed lines), executed on real '
             'Cello threads in exactly that order; every event outcome is compared with the model; (b) free-running schedules (mode free) of 2-16 real threads with yields/spins '
             'at op boundaries, in malloc/calloc and in the pthread calls: all local outcomes are compared with the model, synchronisation outcomes are masked; workloads '
             '(container-, allocation-, exception-, TLS-heavy) are compared with their solo digests. non-trivial = at least two threads ran and the case contains a contended '
@@ -254,17 +256,16 @@ class C13(Spec):
                    'thread-local keys of the user do not start with "__" (reserved: __GC, __Exception)',
                    'a Mutex is unlocked only by its holder and not relocked by its holder (undefined behaviour / deadlock of the default pthread mutex: modelled as ub / blocked, not executed)',
                    'a thread is joined at most once; objects referenced from another thread\'s TLS are roots that are never deleted',
-                   'destructors do not throw during thread teardown (Thread_Init_Run deletes the Exception object before the collector)',
                    'word-sized stores to the class cache are atomic (the cache stores only the declared instance)')
     def cases(self, rng, tier, boost=1):
         quick = tier == 'quick'
         cs = []
-        nsched = (60 if quick else 400) * boost
+        nsched = (100 if quick else 800) * boost
         for i in range(nsched):
             nw = rng.choice([1, 2, 2, 3, 4, 6, 8])
             fl = rng.choice(['mixed', 'mixed', 'locks', 'gc', 'exn', 'work'])
             cs.append(Case(f'sched{i}', gen_schedule(rng, nw, rng.choice([60, 150, 300]) if quick else rng.choice([100, 300, 600]), 'sched', fl)))
-        nfree = (60 if quick else 250) * boost
+        nfree = (100 if quick else 500) * boost
         for i in range(nfree):
             nw = rng.choice([2, 3, 4, 6, 8, 12, 15] if quick else [2, 4, 8, 12, 15, 16])
             fl = rng.choice(['mixed', 'locks', 'locks', 'gc', 'exn', 'work', 'work'])
